@@ -1102,9 +1102,10 @@ def c11(R, ctx):
     R.coverage["conversions_checked"] = ok
     R.coverage["not_accepted"] = na
     R.coverage["explanation"] = ("obj_to_events is modelled (Model/Object.v) and proved to reproduce the decoded events from the decoder's object; "
-                                 "events_to_obj is not modelled: the conversions are also checked on the implementation "
+                                 "events_to_obj is modelled too (path trie and class lookup) and proved to rebuild the decoder's object from the decoded events; "
+                                 "the conversions are also checked on the implementation "
                                  "(by-product == rebuilt, both back to the decoded events incl. value classes, re-encoding == input); the decoder's "
-                                 "by-product object and obj_to_events of it are compared with the Coq model's")
+                                 "by-product object, obj_to_events of it and events_to_obj of the decoded events are compared with the Coq model's")
     oreqs = ["obj cur %s %s" % (c[1], h(c[2])) for c in cases]
     impl = common.run_impl("impl_worker", oreqs)
     model = common.run_model(oreqs) if ctx["driver_ok"] else impl
@@ -1133,6 +1134,23 @@ def c11(R, ctx):
                      "model and implementation obj_to_events differ for `%s`") % ereqs[k][:200],
                     {"request": ereqs[k], "implementation": eimpl[k][:2000], "model": emodel[k][:2000], "decoded_events": decoded[:2000],
                      "theorem": "C11_returned_object_turns_back_into_the_decoded_events / correspondence obj_to_events"}, found_input=found)
+        break
+    # events_to_obj of the decoded events: Model/Object.v (path trie + class lookup) against common/object.py
+    breqs = ["evobj cur %s %s" % (c[1], h(c[2])) for c in cases]
+    bimpl = common.run_impl("impl_worker", breqs)
+    bmodel = common.run_model(breqs) if ctx["driver_ok"] else bimpl
+    bbad = [k for k in range(len(breqs)) if bimpl[k] != bmodel[k]]
+    R.coverage.update({"events_to_obj_cases": len(breqs), "events_to_obj_disagreements": len(bbad),
+                       "events_to_obj_nontrivial": sum(1 for x in bimpl if x not in ("None",) and not x.startswith("CRASH")),
+                       "events_to_obj_compares": "the object events_to_obj rebuilds from the decoded events (class identities, field names, values, None-ness)"})
+    for k in bbad:
+        # the rebuilt object differing from the decoder's own object on a concrete accepted input is a replay
+        found = impl[k] != "None" and bimpl[k] != impl[k]
+        R.violation("c11:events_to_obj" if found else "correspondence:C11-evobj",
+                    ("events_to_obj of the decoded events differs from the object the decoder returned for `%s`" if found else
+                     "model and implementation events_to_obj differ for `%s`") % breqs[k][:200],
+                    {"request": breqs[k], "implementation": bimpl[k][:2000], "model": bmodel[k][:2000], "decoder_object": impl[k][:2000],
+                     "theorem": "C11_decoded_events_rebuild_the_returned_object / correspondence events_to_obj"}, found_input=found)
         break
     r1, _ = engine(R, ctx, cases, modes=("1",))
     distribution(R, cases, r1["1"][1])
@@ -1200,6 +1218,10 @@ def c15(R, ctx):
         if R.rng.random() < 0.5:
             # hex text after a long run of whitespace (detection must keep looking for the first pair)
             ws = bytes(R.rng.choice(b" \t\n\r\x0b\x0c") for _ in range(R.rng.choice([13, 14, 15, 16, 17, 31, 40, 100])))
+            if ws[:2] == b"\n\r":
+                # LF CR is the two-byte pcapng magic: such a text is (by the documented detection) a capture, not hex;
+                # that choice is covered by the "fe auto" comparison with the model below, not by this oracle
+                ws = b" " + ws[1:]
             ht2 = ws + ht
             fe_reqs.append("fe auto " + h(ht2)); fe_meta.append(("auto-small", ht2, None))
             ev_reqs.append("fevents auto 1 S " + h(ht2)); ev_ref.append(data); ev_meta.append(("auto-hex", ht2))
